@@ -572,8 +572,8 @@ def main_check(h, tier, seed, replay=None):
         'assumptions': h.ASSUMPTIONS,
         'wall_s': round(wall, 2), 'violations': len(new_viol) + (1 if (broken and not new_viol) else 0),
     }
-    if os.environ.get('VERIF_REPO'):
-        # development run against a scratch worktree (seeded change, refactoring): never touches the evidence of /repo
+    if os.environ.get('VERIF_REPO') or replay:
+        # a replay, or a development run against a scratch worktree (seeded change, refactoring): never touches the evidence of /repo
         json.dump(_jsonable(ev), open(os.path.join(WORK, pid, 'evidence-scratch.json'), 'w'), indent=1, sort_keys=True)
     else:
         os.makedirs(os.path.join(VERIF, 'evidence'), exist_ok=True)
